@@ -258,9 +258,10 @@ def _run_style(style):
     # every quantity also from a FRESH instance holding only the inputs (no
     # other request before it): alternative derivations must agree
     from aurel.core import AurelCore
-    for key in FRESH_KEYS:
-        if style == 'Tdown4' and key in FLUID_ONLY:
-            continue
+    keys2 = [k for k in FRESH_KEYS
+             if not (style == 'Tdown4' and k in FLUID_ONLY)]
+    fresh = {}
+    for key in keys2:
         with quiet():
             r2 = AurelCore(ref['fd'], verbose=False,
                            clear_cache_every_nbr_calc=10 ** 9)
@@ -268,7 +269,23 @@ def _run_style(style):
             r2.freeze_data()
             v_fresh = r2[key]
             v_main = rel[key]
+        fresh[key] = np.array(v_fresh, copy=True)
         chk(f'fresh-instance:{key}', v_fresh, v_main, extra=1e3)
+    # all histories of length 2: X requested right after Y on a fresh
+    # instance equals X requested first (a shortcut through whatever Y left
+    # in the cache must give the same quantity)
+    for ky in keys2:
+        for kx in keys2:
+            if kx == ky:
+                continue
+            with quiet():
+                r2 = AurelCore(ref['fd'], verbose=False,
+                               clear_cache_every_nbr_calc=10 ** 9)
+                r2.data.update(inp)
+                r2.freeze_data()
+                r2[ky]
+                v = r2[kx]
+            chk(f'after-{ky}:{kx}', v, fresh[kx], extra=1e3)
     return {'style': style, 'bad': bad, 'checks': n[0],
             'points': len(ref['pts'])}
 
